@@ -313,6 +313,9 @@ def evaluate(spec, table):
     if kind == "index":
         _eval_index(ref, dict(spec, kind="single"), table, n)
         return ref
+    if kind == "multiindex":
+        _eval_index(ref, dict(spec, kind="multi"), table, n)
+        return ref
 
     tnames = [c["name"] for c in table["cols"]]
     dup_labels = len(set(tnames)) != len(tnames)
